@@ -6465,9 +6465,14 @@ size_t ZSTD_compressStream2( ZSTD_CCtx* cctx,
             cctx->producedCSize += (U64)(output->pos - opos);
             if ( ZSTD_isError(flushMin)
               || (endOp == ZSTD_e_end && flushMin == 0) ) { /* compression completed */
+                /* the pledged size is controlled at end of frame, as on the single-thread path */
+                int const wrongSize = !ZSTD_isError(flushMin)
+                                   && (cctx->pledgedSrcSizePlusOne != 0)
+                                   && (cctx->consumedSrcSize+1 != cctx->pledgedSrcSizePlusOne);
                 if (flushMin == 0)
                     ZSTD_CCtx_trace(cctx, 0);
                 ZSTD_CCtx_reset(cctx, ZSTD_reset_session_only);
+                RETURN_ERROR_IF(wrongSize, srcSize_wrong, "error : pledgedSrcSize was not respected");
             }
             FORWARD_IF_ERROR(flushMin, "ZSTDMT_compressStream_generic failed");
 
